@@ -1089,7 +1089,10 @@ def one_load(name, canon, doc, unpack, mode, home, fake_home, foreign=None, prev
 
     saved = (base.urlretrieve, base._sha256, base.time)
     base.urlretrieve, base._sha256, base.time = urlretrieve, sha, _Proxy(_time, sleep=lambda s: None)
-    os.environ["TRAFFIC_WEAVER_DATA"] = home
+    # the variable names the directory in one of several legal spellings (plain, trailing separator, a '.' component, a doubled
+    # separator): all of them are the same directory (seed C18k: a containment check against the raw, non-normalised value)
+    hd, hb = os.path.dirname(home), os.path.basename(home)
+    os.environ["TRAFFIC_WEAVER_DATA"] = (home, home + os.sep, os.path.join(hd, ".", hb), hd + os.sep + os.sep + hb)[sum(map(ord, name)) % 4]
     os.environ["HOME"] = fake_home
     before = set(listing(home))
     default_home = os.path.join(fake_home, ".traffic-weaver-data")
